@@ -1,7 +1,8 @@
 (* C12 — Cross-origin requests are refused unless the origin is explicitly authorised.
    Statements only; proofs in Proofs/OriginP.v (models of url.Parse's host and filepath.Match, Go 1.23.5) and Proofs/HandshakeP.v. *)
 From Coq Require Import List NArith Bool.
-From WS Require Import Base.Words Model.Fold Model.Glob Model.Url Model.Origin Model.Handshake Proofs.OriginP Proofs.HandshakeP.
+From Coq Require Import ZArith.
+From WS Require Import Base.Words Model.Fold Model.Glob Model.Url Model.Origin Model.Handshake Proofs.OriginP Proofs.HandshakeP Gen.OriginCode Proofs.GenTie2P.
 Import ListNotations.
 Open Scope N_scope.
 
@@ -46,3 +47,19 @@ Example C12_lookalikes :
   o ([104;116;116;112;115;58;47;47;101;118;105;108;46;99;111;109;47] ++ host) = ORefuse /\                               (* https://evil.com/example.com *)
   o ([104;116;116;112;115;58;47;47] ++ host ++ [64;101;118;105;108;46;99;111;109]) = ORefuse.                             (* https://example.com@evil.com *)
 Proof. vm_compute. repeat split. Qed.
+
+(* tie to the source by translation (tools/constx/nego.go, Gen/OriginCode.v, regenerated on every run): the model takes the decisions of
+   authenticateOrigin in the source's order — empty Origin, url.Parse failure, EqualFold(r.Host, u.Host), then pattern by pattern
+   (a malformed pattern refuses, a match authorises, otherwise the next one), and no match refuses *)
+Theorem C12_decision_is_source : forall host origin pats,
+  origin_authenticate host origin pats =
+  let o := match origin with Some o => o | None => [] end in
+  match gen_origin_pre (match o with [] => true | _ => false end)
+          (match url_host_of o with Some _ => true | None => false end)
+          (match url_host_of o with Some h => fold_eq host h | None => false end) with
+  | Some true => OAllow
+  | Some false => ORefuse
+  | None => match url_host_of o with Some h => run_patterns gen_origin_step h pats | None => ORefuse end
+  end.
+Proof. exact origin_authenticate_is_source. Qed.
+Print Assumptions C12_decision_is_source.
